@@ -591,9 +591,6 @@ func (pr *pqRunner) oracleC04(base pqCase, expr string, root promParser.Node, no
 				}
 				known = c04ClassID[verdictClassOf(expr, n, cands, []string{"K2", "K1", "K6", "K7"})]
 			}
-			if known == "" && !okAny && absentDupMatcher(n) {
-				known = "C04-absent-duplicate-matcher"
-			}
 			pr.failure(fmt.Sprintf("%d", base.ID), what, c, known)
 			break
 		}
@@ -602,72 +599,15 @@ func (pr *pqRunner) oracleC04(base pqCase, expr string, root promParser.Node, no
 			for _, l := range reported {
 				for _, ls := range res.Series {
 					if _, has := ls[l]; has {
-						known := ""
-						if absentDupLabel(n, l) {
-							known = "C04-absent-duplicate-matcher"
-						}
 						pr.failure(fmt.Sprintf("%d", base.ID),
 							fmt.Sprintf("C04: alerts/template reports label `%s` as non-existent for the single-branch query `%s` but the engine returns %s", l, expr, lsetKey(ls)),
-							c, known)
+							c, "")
 						break
 					}
 				}
 			}
 		}
 	}
-}
-
-// absentDupLabel: known finding C04-absent-duplicate-matcher for label `l`: the node contains absent()/absent_over_time()
-// whose argument is, after unwrapping parentheses (which the engine does and absentLabels does not), a plain (matrix)
-// selector in which `l` is matched more than once (absentLabels drops `l`, the engine keeps it when the first
-// equality matcher of `l` has a non-empty value and no other matcher of `l` follows) or which is parenthesised and has an
-// equality matcher on `l`.
-func absentDupLabel(node promParser.Node, l string) bool {
-	return anyNode(node, func(n promParser.Node) bool {
-		c, ok := n.(*promParser.Call)
-		if !ok || (c.Func.Name != "absent" && c.Func.Name != "absent_over_time") || len(c.Args) != 1 {
-			return false
-		}
-		arg := c.Args[0]
-		paren := false
-		for {
-			p, ok := arg.(*promParser.ParenExpr)
-			if !ok {
-				break
-			}
-			arg, paren = p.Expr, true
-		}
-		var vs *promParser.VectorSelector
-		switch a := arg.(type) {
-		case *promParser.VectorSelector:
-			vs = a
-		case *promParser.MatrixSelector:
-			vs, _ = a.VectorSelector.(*promParser.VectorSelector)
-		}
-		if vs == nil {
-			return false
-		}
-		cnt, eq := 0, false
-		for _, m := range vs.LabelMatchers {
-			if m.Name == l {
-				cnt++
-				if m.Type == labels.MatchEqual {
-					eq = true
-				}
-			}
-		}
-		return cnt > 1 || (paren && eq)
-	})
-}
-
-// absentDupMatcher: some label is matched twice in the selector of an absent() call inside the node.
-func absentDupMatcher(node promParser.Node) bool {
-	for _, l := range pqTemplateVars {
-		if absentDupLabel(node, l) {
-			return true
-		}
-	}
-	return false
 }
 
 // deadInherited: an operand whose result branches flow into n's branches already has only dead branches
